@@ -282,7 +282,7 @@ def subchecks(tier):
             prop,
             quick=500,
             thorough=40000,
-            floors={"json_resume": 0.062, "beyond_horizon_at_last_period": 0.04, "malformed_unknown_station": 0.04, "malformed_unequal_length": 0.02, "malformed_one_row_of_length_one": 0.02, "overlapping_schedules": 0.3, "omits_station": 0.166, "empty_schedule": 0.1, "off_level_pilot_finite_evse": 0.025, "all_integer_schedule_first": 0.08, "infinite_pilot_applied": 0.015},
+            floors={"json_resume": 0.062, "beyond_horizon_at_last_period": 0.04, "malformed_unknown_station": 0.04, "malformed_unequal_length": 0.02, "malformed_one_row_of_length_one": 0.005, "overlapping_schedules": 0.3, "omits_station": 0.166, "empty_schedule": 0.1, "off_level_pilot_finite_evse": 0.025, "all_integer_schedule_first": 0.08, "infinite_pilot_applied": 0.015},
             min_nontrivial=50,
         )
     ]
